@@ -24,6 +24,7 @@ EXPLANATION = (
     "argument binding over all signature shapes (inspect.signature semantics), from_format/to_format conversions."
     ' (R13) the positional list handed to the wrapped function is never rebuilt from the `.values()` of a BoundArguments.arguments mapping (a *args parameter is one entry of it); R2 follows a store into such a mapping through the object it is a view of.'
     ' (R14) under an `isinstance(out, tuple)` guard the decorators rebuild a result with its own type (type(out)(...), _make, _replace), never with the base tuple constructor.'
+    ' (R15) every unbundling of the variadic entry of a bound-arguments mapping in check_types (pop / popitem on the mapping) is guarded by a test that reads Parameter.kind / VAR_POSITIONAL / VAR_KEYWORD (followed through local and enclosing-scope definitions), never by a size comparison.'
 )
 LEVEL_RULE = "one obligation per validate call site / obj_getter branch / wrapper / forwarding call in decorators.py"
 FLOORS = {"R1": 7, "R2": 3, "R3": 4, "R4": 2, "R5": 5, "R6": 2, "R7": 2, "R8": 1, "R9": 1, "R10": 2, "R11": 1, "R12": 1}
